@@ -140,7 +140,21 @@ def section_typing(serif, out):
 def section_fingerprint(serif, out):
     """Vector._FP_P / _FP_B and the literals returned by _hash_element for None and NaN (read from the AST)"""
     from serif import Vector
-    P, B = int(Vector._FP_P), int(Vector._FP_B)
+    import serif.vector as _vm
+    P = B = None
+    for holder in (Vector, _vm):
+        if isinstance(getattr(holder, "_FP_P", None), int) and isinstance(getattr(holder, "_FP_B", None), int):
+            P, B = int(holder._FP_P), int(holder._FP_B)
+            break
+    if P is None:
+        # constants renamed or moved: read them off the behaviour.  hash(-1) == -2, so fp([-1]) = (-2) % P = P - 2;
+        # fp([1, 0]) = (hash(1) * B + hash(0)) % P = B % P
+        P = int(Vector([-1]).fingerprint()) + 2
+        B = int(Vector([1, 0]).fingerprint())
+        probe = {(1, 1): (B + 1) % P, (2, 0, 0): (2 * B * B) % P, (-3, 5): ((-3 % P) * B + 5) % P, (7,): 7}
+        for xs, want in probe.items():
+            if int(Vector(list(xs)).fingerprint()) != want:
+                raise RuntimeError("fingerprint constants could not be read off the behaviour")
     src = open(os.path.join(SRC, "serif", "vector.py")).read()
     tree = ast.parse(src)
     none_hash = nan_hash = None
@@ -154,14 +168,16 @@ def section_fingerprint(serif, out):
                         none_hash = sub.body[0].value.value
                     elif "isnan" in test and nan_hash is None:
                         nan_hash = sub.body[0].value.value
-    # literals not found as such (moved to a constant, computed …): ask the live function
-    try:
-        if not none_hash:
-            none_hash = int(Vector._hash_element(None))
-        if not nan_hash:
-            nan_hash = int(Vector._hash_element(float("nan")))
-    except Exception:
-        pass
+    # literals not found as such (moved to a constant, computed …): ask the live function; failing that, take the
+    # residue modulo P from the behaviour (all the model ever uses of an element hash is its value modulo P)
+    for attempt in (lambda x: int(Vector._hash_element(x)), lambda x: int(Vector([x]).fingerprint())):
+        try:
+            if not none_hash:
+                none_hash = attempt(None)
+            if not nan_hash:
+                nan_hash = attempt(float("nan"))
+        except Exception:
+            pass
     out.append("/-- `Vector._FP_P`, `Vector._FP_B` and the hash literals of `_hash_element` (0 = not found) -/")
     out.append(f"def FP_P : Nat := {P}")
     out.append(f"def FP_B : Nat := {B}")
@@ -367,23 +383,41 @@ def section_names(serif, out):
     out.append("")
 
 
+def _promotable_observed():
+    """the (current kind, required kind) pairs `Vector.__setitem__` widens by, read off its behaviour: a one-element vector of
+    kind a is assigned a value of kind b; the pair counts when the write is accepted and the vector then reports kind b.
+    (The constant `_PROMOTABLE` may be renamed, derived from another table or consulted in a helper; what the model needs is the
+    relation the write path implements.)"""
+    import datetime as _dt, warnings
+    from serif import Vector
+    samples = {bool: True, int: 1, float: 1.5, complex: 1 + 2j, str: "a", bytes: b"a", _dt.date: _dt.date(2020, 1, 2),
+               _dt.datetime: _dt.datetime(2020, 1, 2, 3, 4)}
+    pairs = set()
+    with warnings.catch_warnings():
+        warnings.simplefilter("ignore")
+        for a, va in samples.items():
+            for b, vb in samples.items():
+                if a is b:
+                    continue
+                try:
+                    v = Vector([va, va])
+                    if v.schema() is None or v.schema().kind is not a:
+                        continue
+                    v[0] = vb
+                    if v.schema().kind is b:
+                        pairs.add((a, b))
+                except Exception:
+                    pass
+    return pairs
+
+
 def section_assign(serif, out):
     """vector._PROMOTABLE: the (current kind, required kind) pairs __setitem__ may widen by.
     Read from the module object; cross-checked against the literal in the source text."""
     kc = kind_codes()
     rows = []
     try:
-        import serif.vector as V
-        pairs = set(V._PROMOTABLE)
-        # the fold in __setitem__ must actually consult this set (otherwise the constant is dead)
-        src = open(os.path.join(SRC, "serif", "vector.py")).read()
-        tree = ast.parse(src)
-        used = False
-        for node in ast.walk(tree):
-            if isinstance(node, ast.FunctionDef) and node.name == "__setitem__":
-                used = used or any(isinstance(n, ast.Name) and n.id == "_PROMOTABLE" for n in ast.walk(node))
-        if not used:
-            pairs = set()
+        pairs = _promotable_observed()
         for a, b in pairs:
             if a in kc and b in kc:
                 rows.append((kc[a], kc[b]))
@@ -452,6 +486,40 @@ def _join_tuples(tree):
     return res
 
 
+EXPECT_POOL = ["one_to_one", "many_to_one", "one_to_many", "many_to_many", "", "one_to_one ", "ONE_TO_ONE", "one-to-one", "1:1",
+               "many_to_many_", "many", "one", "any", "m:n", "none", "left", "inner"]
+
+
+def _join_tuples_observed(suffix):
+    """the same three lists read off the behaviour of the live method, on a pool of candidate `expect` strings: accepted =
+    no exception with unique keys on both sides; right/left uniqueness checked = SerifValueError with a matching duplicate on
+    that side only.  (Used when the membership tests are not written as literal tuples in the method body.)"""
+    import warnings
+    from serif import Table
+    from serif.errors import SerifValueError
+    meth = dict((s, m) for m, s in JOIN_METHODS)[suffix]
+    got = {"valid": [], "right": [], "left": []}
+    with warnings.catch_warnings():
+        warnings.simplefilter("ignore")
+        for e in EXPECT_POOL:
+            def call(lk, rk):
+                L, R = Table({"k": lk, "x": list(range(len(lk)))}), Table({"k": rk, "y": list(range(len(rk)))})
+                return getattr(L, meth)(R, "k", "k", expect=e)
+            try:
+                call([1, 2], [1, 2])
+            except Exception:
+                continue
+            got["valid"].append(e)
+            for side, (lk, rk) in (("right", ([1, 2], [1, 1])), ("left", ([1, 1], [1, 2]))):
+                try:
+                    call(lk, rk)
+                except SerifValueError:
+                    got[side].append(e)
+                except Exception:
+                    pass
+    return got
+
+
 def section_joins(serif, out):
     """the `expect` membership tuples of inner_join / join / full_join, read with ast (never executed)"""
     tuples = None
@@ -460,6 +528,12 @@ def section_joins(serif, out):
             tuples = _join_tuples(ast.parse(f.read()))
     except Exception:
         tuples = {}
+    for _, suffix in JOIN_METHODS:
+        if any((tuples.get(suffix) or {}).get(w) is None for w in ("valid", "right", "left")):
+            try:
+                tuples[suffix] = _join_tuples_observed(suffix)
+            except Exception:
+                pass
     doc = {"valid": "accepted values of `expect` (anything else is rejected)",
            "right": "values of `expect` for which right-side key uniqueness is checked",
            "left": "values of `expect` for which left-side key uniqueness is checked"}
@@ -527,9 +601,8 @@ def section_promotable(serif, out):
     """`vector._PROMOTABLE`: the (current kind, required kind) pairs `__setitem__` promotes through (C03, C08)"""
     rows = []
     try:
-        from serif.vector import _PROMOTABLE
         kc = kind_codes()
-        for a, b in sorted(_PROMOTABLE, key=lambda p: (kc[p[0]], kc[p[1]])):
+        for a, b in sorted(_promotable_observed(), key=lambda p: (kc[p[0]], kc[p[1]])):
             rows.append(f"({kc[a]}, {kc[b]})")
     finally:
         out.append("/-- `_PROMOTABLE` as (current kind code, required kind code) -/")
